@@ -11,7 +11,7 @@ from typing import Any, Dict, List, Optional, Set, Tuple
 
 from ..elements import RefdomInfo, load_refdoms
 from ..interp import (Arr, Interp, Obj, PyFunc, Raised, Unsupported, PTS)
-from ..model import AnalysisError, Model, src, walk_no_nested
+from ..model import staged, AnalysisError, Model, src, walk_no_nested
 from ..poly import Poly
 
 PID = "C11"
@@ -761,8 +761,8 @@ def run(model: Model, rep, tier: str) -> None:
              "products in 32-bit index arithmetic")
     _index_width(model, rep)
     sentinel = _layout_rules(model, rep)
-    _incidence(model, rep)
-    _refdom_tables(model, rep)
+    staged(lambda: _incidence(model, rep),
+           lambda: _refdom_tables(model, rep))
     _sentinel(model, rep, sentinel)
     _complements(model, rep)
     rep.require_min("C11-R1", 7)
